@@ -73,18 +73,18 @@ FUNCS4 = [
     (F, None, None, "array_insert_jsonb", "array_insert_jsonb", None),
     (F, None, None, "object_delete_jsonb", "object_delete_jsonb", None),
     (F, None, None, "object_pick_jsonb", "object_pick_jsonb", None),
+    (F, None, None, "array_distinct_jsonb", "array_distinct_jsonb", None),
+    (F, None, None, "array_intersection_jsonb", "array_intersection_jsonb", None),
+    (F, None, None, "array_except_jsonb", "array_except_jsonb", None),
 ]
 
-# translated and elaborated on request only (RS2LEAN4_EXTRA=object_insert,sets): these translate, their agreement
+# translated and elaborated on request only (RS2LEAN4_EXTRA=object_insert,overlap): these translate, their agreement
 # with Functions/Edit.lean is not proved yet (see tools/RS2LEAN.md), so they are not part of the default output
 EXTRA4 = {
     "object_insert": [
         (F, None, None, "object_insert_jsonb", "object_insert_jsonb", None),
     ],
-    "sets": [
-        (F, None, None, "array_distinct_jsonb", "array_distinct_jsonb", None),
-        (F, None, None, "array_intersection_jsonb", "array_intersection_jsonb", None),
-        (F, None, None, "array_except_jsonb", "array_except_jsonb", None),
+    "overlap": [
         (F, None, None, "array_overlap_jsonb", "array_overlap_jsonb", None),
     ],
 }
